@@ -176,6 +176,7 @@ class Scheduler:
                 me._sem.acquire()
                 raise Abort()
             en = self.enabled()
+        self._adv_spin = 0
         if self.trace_hook is not None:
             self.trace_hook(kind)
         if len(en) == 1:
@@ -228,6 +229,14 @@ class Scheduler:
                     f'{t.name}:{t.state}' for t in self.threads
                     if t.state != 'done'))
         d = min(t.deadline for t in timed)
+        # a deadline that can never be reached (NaN), or time advancing again
+        # and again without enabling anybody, is a dead end, not a busy loop
+        self._adv_spin = getattr(self, '_adv_spin', 0) + 1
+        if d != d or self._adv_spin > 1000:
+            raise Deadlock(
+                f'timers never enable a thread (next deadline {d!r}): ' +
+                ', '.join(f'{t.name}:{t.state}:{t.deadline!r}'
+                          for t in timed))
         first = [t for t in timed if t.deadline == d]
         late = 0.0
         if not all(t.exact for t in first) and len(self.lateness_menu) > 1:
